@@ -145,9 +145,16 @@ def features(recs):
     prev = None
     tlb_order = []
     pend = {}
+    width = recs[0].get('width', 0) if recs else 0
+    bot_out = tr_in = 0
+    ack = False                                     # between CtrlRsp and CtrlTake: restart drains
     for r in recs:
         e = r['e']
-        if e == 'Accept' and prev != 'TrSend':
+        if e == 'CtrlRsp':
+            ack = True
+        if e == 'CtrlTake':
+            ack = False
+        if e == 'Accept' and prev != 'TrSend' and not ack:
             f.add('coalesced')
         if e == 'TrSend':
             if any(va == r['va'] and pid != r['pid'] for va, pid in pend.values()):
@@ -156,10 +163,17 @@ def features(recs):
         if e == 'EnvTlbRsp':
             tlb_order.append(r['id'])
             pend.pop(r['id'], None)
-        if e == 'TrTake' and prev != 'Forward':
-            f.add('reply_met_full_bottom_or_flush')
-            if not any(x['e'] == 'EnvCtrl' for x in recs):
-                f.add('reply_met_full_bottom')
+            if tr_in == 0 and width and bot_out >= width:
+                f.add('reply_met_full_bottom')      # head reply arrives while Bottom.outgoing is full
+            tr_in += 1
+        if e == 'TrTake':
+            tr_in -= 1
+            if prev != 'Forward' and not ack:
+                f.add('reply_dropped_unknown')      # reply nobody waits for (flush, or drained after a failed send)
+        if e == 'Forward':
+            bot_out += 1
+        if e == 'EnvTakeDown':
+            bot_out -= 1
         if e == 'EnvCtrl':
             f.add('flush')
         prev = e
@@ -194,6 +208,8 @@ def run(ctx, selftest=False):
         ctx.log('MC_AT_nf (3 accesses, no flush): %d distinct states' % r.distinct)
         r = ctx.tlc_expect_ok(['at'], 'MC_AT.tla', 'MC_AT_live3.cfg', timeout=1800)
         ctx.log('MC_AT_live3: %d distinct states' % r.distinct)
+        r = ctx.tlc_expect_ok(['at'], 'MC_AT.tla', 'MC_AT_cap2.cfg', workers=vlib.NCPU, timeout=1800)
+        ctx.log('MC_AT_cap2 (3 accesses, port capacity 2, no flush): %d distinct states' % r.distinct)
         r = ctx.tlc_expect_ok(['at'], 'MC_AT.tla', 'MC_AT_big.cfg', workers=vlib.NCPU, timeout=3000)
         ctx.log('MC_AT_big (3 accesses, flush): %d distinct states' % r.distinct)
         ctx.cov['exhaustive'] = True
